@@ -86,6 +86,14 @@ def generate(seed, tier):
         block, meta = gen_block(rng, 'contractive', T=T, n=rng.randint(1, 5), rich=True, allow_user_t=False)
     else:
         block = gen_dyn_block(rng, dyn, T)
+    if S['swarm'].random() < 0.3 and dyn != 'mixed_block':
+        # the run itself is longer than the search horizon, and the exogenous input steps inside that horizon
+        T = S['knobs'].choice([12, 20, 30])
+        block = gen_dyn_block(rng, dyn, T)
+        for e in block['exo']:
+            g = fl(rng, 5, 50, 1)
+            cut = S['knobs'].randint(1, 6)
+            e[1] = '[%s,]*%d + [%s,]*%d' % (repr(g), cut, repr(round(g * 1.5, 2)), T + 5)
     steady = {'T': S['knobs'].choice([5, 10, 20, 50, 100, 200]),
               'tol': S['knobs'].choice([1e-2, 1e-3, 1e-4, 1e-5, 1e-6]),
               'excluded': ['t']}
